@@ -76,6 +76,16 @@ def _wellformed(S, sd, exact=True):
         npos = sum(1 for j in cj if O.ccw(j))
         if npos > 1:
             out.append("Connected with %d positive boundaries" % npos)
+        # every hole lies inside the outer boundary (if there is one) and no hole lies inside another hole
+        pos = [j for j in cj if O.ccw(j)]
+        neg = [j for j in cj if not O.ccw(j)]
+        for hj in neg:
+            v = hj[0][0]
+            if pos and O.is_polygon(pos[0]) and O.region_simple(pos[0], v) == "out":
+                out.append("a hole lies outside the outer boundary of its component")
+            for other in neg:
+                if other is not hj and O.is_polygon(other) and O.region_simple(other, v) == "out":
+                    out.append("a hole lies inside another hole of the same component")
     if sd[0] == "D":
         if len(sd[1]) < 2:
             out.append("Disjoint with < 2 components")
